@@ -17,6 +17,7 @@ import Driver.C18
 import Driver.CafW64
 import Driver.Routes
 import Driver.World
+import Driver.Aiff
 open Sf
 
 def lawOf (s : String) : Option G711.Law :=
@@ -78,4 +79,5 @@ def main (args : List String) : IO UInt32 := do
   | "w64" :: rest => CafW64Driver.w64Cmd rest
   | "routes" :: rest => RoutesDriver.cmd rest
   | "world" :: rest => WorldDriver.cmd rest
+  | "aiff" :: rest => Driver.Aiff.cmd rest
   | _ => IO.eprintln "usage: sfmodel <g711|...> ..."; return 2
